@@ -62,6 +62,23 @@ def verify(curve, pub, sig, msg):
     raise ValueError(curve)
 
 
+def valid_point(curve, pub):
+    """True / False where the reference can tell whether the bytes are a public key of the curve; None where it cannot (Ed25519:
+    the library validates lazily)."""
+    try:
+        if curve in CURVES:
+            ec.EllipticCurvePublicKey.from_encoded_point(CURVES[curve][0](), pub)
+            return True
+        if curve == b'BL':
+            from py_ecc.bls.g2_primitives import pubkey_to_G1, subgroup_check
+            from py_ecc.optimized_bls12_381 import is_inf
+            P = pubkey_to_G1(pub)
+            return bool(not is_inf(P) and subgroup_check(P))
+    except Exception:
+        return False
+    return None
+
+
 DST_AUG = b'BLS_SIG_BLS12381G2_XMD:SHA-256_SSWU_RO_AUG_'
 
 
